@@ -33,24 +33,29 @@ Proof.
   intros (Hv & Hcr & Hsl & Hts) (Hl & Hsan). cbn [rel]. unfold enc. apply sizepos_enc; assumption.
 Qed.
 
-(** ** Pieces stay suffixes of the coding's chunk datas *)
+(** ** The pieces stay a tail of the coding's chunk datas, the head piece possibly trimmed *)
 
-Definition Suffixes (c : coding) (ds : list bytes) : Prop :=
-  Forall (fun p => exists ck d0, In ck (cd_chunks c) /\ ck_data ck = d0 ++ p) ds.
+Definition Tail (c : coding) (ds : list bytes) : Prop :=
+  ds = [] \/
+  exists pre d0 p tl, ds = p :: tl /\ map ck_data (cd_chunks c) = pre ++ (d0 ++ p) :: tl.
 
-Lemma suffixes_start c : Suffixes c (map ck_data (cd_chunks c)).
+Lemma tail_start c : Tail c (map ck_data (cd_chunks c)).
 Proof.
-  unfold Suffixes. apply Forall_forall. intros p Hin. apply in_map_iff in Hin.
-  destruct Hin as (ck & <- & Hin). exists ck, []. auto.
+  unfold Tail. destruct (map ck_data (cd_chunks c)) as [|p tl]; [left; reflexivity|].
+  right. exists [], [], p, tl. auto.
 Qed.
 
-Lemma shrink_suffixes c ds ds' : Shrink ds ds' -> Suffixes c ds -> Suffixes c ds'.
+Lemma shrink_tail c ds ds' : Shrink ds ds' -> Tail c ds -> Tail c ds'.
 Proof.
-  unfold Suffixes. intros H. induction H as [ds|d1 d2 tl ds' _ IH|d tl ds' _ IH]; intros Hs.
+  unfold Tail. intros H. induction H as [ds|d1 d2 tl ds' _ IH|d tl ds' _ IH]; intros Hs.
   - exact Hs.
-  - apply IH. inversion Hs as [|? ? (ck & d0 & Hin & Hd) Htl]; subst. constructor; [|assumption].
-    exists ck, (d0 ++ d1). split; [assumption|]. rewrite Hd. apply app_assoc.
-  - apply IH. inversion Hs; assumption.
+  - apply IH. destruct Hs as [Hs|(pre & d0 & p & tl0 & E & Hm)]; [discriminate Hs|].
+    inversion E; subst. right. exists pre, (d0 ++ d1), d2, tl0. split; [reflexivity|].
+    rewrite Hm, <- app_assoc. reflexivity.
+  - apply IH. destruct Hs as [Hs|(pre & d0 & p & tl0 & E & Hm)]; [discriminate Hs|].
+    inversion E; subst. destruct tl0 as [|p' tl']; [left; reflexivity|].
+    right. exists (pre ++ [d0 ++ p]), [], p', tl'. split; [reflexivity|].
+    rewrite Hm, <- app_assoc. reflexivity.
 Qed.
 
 (** With the output bounded by the budget, one read's output is a prefix of the head piece. *)
@@ -71,12 +76,12 @@ Definition Inv (c : coding) (t : ctrace) : Prop :=
   exists D R ds,
     enc c = D ++ R /\ len D = t_consumed t /\
     payload c = t_out t ++ concat ds /\
-    rel (t_st t) R ds /\ Suffixes c ds.
+    rel (t_st t) R ds /\ Tail c ds.
 
 Lemma inv_start c : valid c -> line_limit_F17 c -> Inv c cstart.
 Proof.
   intros Hv Hl. exists [], (enc c), (map ck_data (cd_chunks c)). cbn [cstart t_consumed t_out t_st app len].
-  repeat split; auto using rel_start, suffixes_start.
+  repeat split; auto using rel_start, tail_start.
 Qed.
 
 Lemma inv_step c rest t k cap stop :
@@ -84,7 +89,10 @@ Lemma inv_step c rest t k cap stop :
   exists t' i out,
     cstep (enc c ++ rest) t (k, cap, stop) = Ok t' /\ Inv c t' /\
     t_consumed t' = t_consumed t + i /\ t_out t' = t_out t ++ out /\ len out <= cap /\
-    (stop = true -> out = [] \/ exists ck d1 d2, In ck (cd_chunks c) /\ ck_data ck = d1 ++ out ++ d2) /\
+    (stop = true ->
+     out = [] \/ exists pre d1 d2 post,
+                   map ck_data (cd_chunks c) = pre ++ (d1 ++ out ++ d2) :: post /\
+                   t_out t = concat pre ++ d1) /\
     (len (enc c) <= t_consumed t + k -> 1 <= cap -> dech_is_ended (t_st t) = false -> 1 <= i).
 Proof.
   intros (D & R & ds & Henc & HD & Hpay & Hrel & Hsuf).
@@ -98,11 +106,15 @@ Proof.
     - rewrite len_app. reflexivity.
     - rewrite Hpay, Hcat. apply app_assoc.
     - exact Hrel'.
-    - eapply shrink_suffixes; eassumption. }
+    - eapply shrink_tail; eassumption. }
   split; [rewrite HD; reflexivity|]. split; [reflexivity|]. split; [assumption|]. split.
   - intros Hs. destruct (budget_prefix (t_st t) ds out ds' Hcat (Hb Hs)) as [->|(p & tl & d2 & -> & ->)].
     + left; reflexivity.
-    + right. inversion Hsuf as [|? ? (ck & d0 & Hin & Hd) _]; subst. exists ck, d0, d2. auto.
+    + right. destruct Hsuf as [Hs0|(pre & d0 & p0 & tl0 & E & Hm)]; [discriminate Hs0|].
+      inversion E; subst p0 tl0. exists pre, d0, d2, tl. split; [exact Hm|].
+      unfold payload in Hpay. rewrite Hm in Hpay. rewrite concat_app in Hpay. cbn [concat] in Hpay.
+      rewrite <- (app_assoc d0) in Hpay. rewrite (app_assoc (concat pre)) in Hpay.
+      apply app_inv_tail in Hpay. symmetry. exact Hpay.
   - intros H1 H2 H3. apply Hprog; [|assumption|intros E; rewrite E in H3; discriminate].
     rewrite len_app in H1. lia.
 Qed.
@@ -151,7 +163,24 @@ Proof.
   exists t. split; [exact Heq|]. apply inv_facts. exact Hinv.
 Qed.
 
-(** One more read, with boundary stopping, after any history. *)
+(** One more read, with boundary stopping, after any history: the output continues exactly the chunk
+    in which delivery stands ([pre] = the chunk datas fully delivered, [d1] = the delivered part of
+    the current one) and stays inside it. *)
+Lemma run_boundary_pos c rest sched k cap t :
+  valid c -> line_limit_F17 c ->
+  crun (enc c ++ rest) cstart sched = Ok t ->
+  exists t' out,
+    cstep (enc c ++ rest) t (k, cap, true) = Ok t' /\ t_out t' = t_out t ++ out /\
+    (out = [] \/ exists pre d1 d2 post,
+                   map ck_data (cd_chunks c) = pre ++ (d1 ++ out ++ d2) :: post /\
+                   t_out t = concat pre ++ d1).
+Proof.
+  intros Hv Hl Hrun. destruct (inv_run c rest sched cstart (inv_start c Hv Hl)) as (t0 & Heq & Hinv).
+  rewrite Hrun in Heq. inversion Heq; subst t0.
+  destruct (inv_step c rest t k cap true Hinv) as (t' & i & out & Hs & _ & _ & Ho & _ & Hb & _).
+  exists t', out. auto.
+Qed.
+
 Lemma run_boundary c rest sched k cap t :
   valid c -> line_limit_F17 c ->
   crun (enc c ++ rest) cstart sched = Ok t ->
@@ -159,10 +188,13 @@ Lemma run_boundary c rest sched k cap t :
     cstep (enc c ++ rest) t (k, cap, true) = Ok t' /\ t_out t' = t_out t ++ out /\
     (out = [] \/ exists ck d1 d2, In ck (cd_chunks c) /\ ck_data ck = d1 ++ out ++ d2).
 Proof.
-  intros Hv Hl Hrun. destruct (inv_run c rest sched cstart (inv_start c Hv Hl)) as (t0 & Heq & Hinv).
-  rewrite Hrun in Heq. inversion Heq; subst t0.
-  destruct (inv_step c rest t k cap true Hinv) as (t' & i & out & Hs & _ & _ & Ho & _ & Hb & _).
-  exists t', out. auto.
+  intros Hv Hl Hrun.
+  destruct (run_boundary_pos c rest sched k cap t Hv Hl Hrun) as (t' & out & Hs & Ho & Hb).
+  exists t', out. split; [assumption|]. split; [assumption|].
+  destruct Hb as [->|(pre & d1 & d2 & post & Hm & _)]; [left; reflexivity|right].
+  assert (Hin : In (d1 ++ out ++ d2) (map ck_data (cd_chunks c))).
+  { rewrite Hm. apply in_or_app. right. left. reflexivity. }
+  apply in_map_iff in Hin. destruct Hin as (ck & Hd & Hin). exists ck, d1, d2. auto.
 Qed.
 
 (** ** Liveness: with the whole coding visible and room for a byte, reads reach the end *)
